@@ -52,7 +52,7 @@ REQUIRED = {
  "C03": ["inflight_exact", "live_cacheable_unique", "dup_exec_no_new_task", "exec_start_dnc_keeps_inflight", "fresh_after_completion", "c03_dump_holds", "c03_waited_holds"],
  "C04": ["pick_minimal", "assign_next_in_policy", "descend_cases", "sticky_only_breaks_ties", "minimal_sound", "minimal_complete", "minimal_nonempty", "no_queued_while_parked", "tree_consistent", "qchildren_less_irrefl", "qchildren_less_trans", "assign_next_finds_queued", "schedule_finds_parked", "direct_assign_closest"],
  "C05": ["longest_prefix_pq_sound", "longest_prefix_pq_none", "exec_routes_longest_prefix", "exec_routes_longest_prefix_reachable", "reject_codes", "drained_gets_nothing", "undrain_eligible"],
- "C06": ["waiters_exact", "parked_on_registered", "armed_only_unwaited", "armed_when_unwaited", "enter_fires_all_overdue", "maybe_start_cleanup_arms", "retry_limit", "worker_timeout", "no_waiter_timeout", "worker_attended", "workerless_queue_armed", "gc_complete", "sync_answer_armed", "monitor_arm_on_model"],
+ "C06": ["waiters_exact", "parked_on_registered", "armed_only_unwaited", "armed_when_unwaited", "enter_fires_all_overdue", "maybe_start_cleanup_arms", "retry_limit", "worker_timeout", "no_waiter_timeout", "worker_attended", "workerless_queue_armed", "gc_complete", "sync_answer_armed", "monitor_arm_on_model", "retry_counter_step", "retry_counter_step_nonsync", "retry_counter_bounded", "assigned_retry_step", "held_retry_step", "retry_positions_isolated"],
  "C07": ["selector_linear", "selector_only_at_execute", "learner_linear", "no_learner_no_call", "learner_after_complete", "completed_has_no_learner", "retry_once_largest", "background_bounded", "background_ops_not_cacheable", "background_learners_no_retry", "monitor_learners_on_model", "learner_holder_has_action", "learner_ids_uniqueb_sound", "bg_scripts_okb_sound"],
 }
 
@@ -61,8 +61,10 @@ def config(pid, extra_props=None):
     return {
         "id": pid,
         "coq_dirs": ["theories/Sched"],
-        "coq_targets": ["theories/Sched/Corr.vo", "theories/Sched/Properties%s.vo" % (pid if pid != "C07" else "C07s")],
-        "properties_files": ["theories/Sched/Properties%s.v" % (pid if pid != "C07" else "C07s")],
+        "coq_targets": ["theories/Sched/Corr.vo", "theories/Sched/Properties%s.vo" % (pid if pid != "C07" else "C07s")]
+                       + (["theories/Sched/PropertiesC06r.vo"] if pid == "C06" else []),
+        "properties_files": ["theories/Sched/Properties%s.v" % (pid if pid != "C07" else "C07s")]
+                            + (["theories/Sched/PropertiesC06r.v"] if pid == "C06" else []),
         "required_theorems": REQUIRED.get(pid, []),
         # kinds of other properties' predicates that also state part of this property
         "violation_kinds": [pid + ":"] + {"C03": ["C02:cancelled-for-lack-of-waiters", "C02:progress-message-for-unregistered"],
